@@ -145,7 +145,7 @@ Proof.
   set (ov := {| ov_ent := root; ov_repr := None |}) in *.
   rewrite (exec_sels_mono S U (doc_frags d) vs f f' rt ov (op_sels o) []); [reflexivity|exact Hle|].
   intro Ho. destruct (exec_sels S U (doc_frags d) vs Mono f rt ov (op_sels o) []) as [r errs]. cbn in Hn, Ho.
-  Show. rewrite (oof_b_true _ Ho) in Hn. discriminate.
+  pose proof (oof_b_true _ Ho) as Ht. unfold oof_b in Ht. congruence.
 Qed.
 
 (* from "same fuel" to "any two fuels": a rewriting that keeps the response at every fuel at which
